@@ -35,7 +35,7 @@ def floors(tier):
             "last_is_most_expensive": 100 if q else 1500, "monitor:get_critical_path": 4000 if q else 55000, "line_number_gaps": 300 if q else 4000,
             "report_cp_column_checked": 1200 if q else 18000, "store_load_kernels": 80 if q else 1000, "dict_first_checked": 1200 if q else 18000, "flag_graph_compared": 150 if q else 2500,
             "edge_weights_checked": 8000 if q else 100000,
-            "hidden_load_models": 20 if q else 300, "hidden_load_chains": 40 if q else 600, "hidden_composed_loads": 40 if q else 600}
+            "second_graphs": 800 if q else 10000, "asked_again_after_another_graph": 800 if q else 10000, "hidden_load_models": 20 if q else 300, "hidden_load_chains": 40 if q else 600, "hidden_composed_loads": 40 if q else 600}
 
 
 def plan(tier, seed):
@@ -94,6 +94,7 @@ def judge(forms, dg, R, case, frontend=None):
         except Exception as e:  # noqa
             R.exception(e, case, prefix="dict-first/")
     nt = judge_calls(forms, dg, R, case)
+    nt = second_graph(forms, dg, R, case) or nt
     if case.get("flags"):
         # flag dependencies were requested: the graph the critical path is taken from must be the one built with them
         try:
@@ -134,6 +135,44 @@ def judge(forms, dg, R, case, frontend=None):
                         % (sorted(marks), sorted(want), sorted(l for l, v in want.items() if v == 0)), case)
         elif any(abs(marks[l] - want[l]) > 0.05 + 1e-9 for l in want):
             R.violation("report/cp-cell-value", "CP column %s, critical path latencies %s" % (marks, want), case)
+    return nt
+
+
+def _rekey(R, before, prefix):
+    n = sum(R.witness_counts.values()) - before
+    for w in (R.witnesses[-n:] if n > 0 else []):
+        if not w["key"].startswith(prefix):
+            R.witness_counts[w["key"]] -= 1
+            if R.witness_counts[w["key"]] <= 0:
+                del R.witness_counts[w["key"]]
+            w["key"] = prefix + w["key"]
+            R.witness_counts[w["key"]] += 1
+    return n > 0
+
+
+def second_graph(forms, dg, R, case):
+    """A library user (or --lines after a whole-file analysis) builds another graph over the same instruction forms - here the
+    second half of the kernel: its critical path is judged, and the first graph's once more when it is asked again afterwards."""
+    if len(forms) < 3 or sum(R.witness_counts.values()) or case.get("kind") == "corpus":
+        return False
+    from osaca.semantics import KernelDG
+
+    k = len(forms) // 2
+    sub = list(forms[k:])
+    try:
+        dg2 = KernelDG(sub, dg.parser, dg.model, dg.arch_sem, 0 if len(sub) > 8 else -1, bool(case.get("flags")))
+    except Exception as e:  # noqa
+        R.exception(e, case, prefix="second-graph/")
+        return False
+    R.count("second_graphs")
+    before = sum(R.witness_counts.values())
+    nt = judge_once(sub, dg2, R, case)
+    if _rekey(R, before, "second-graph/"):
+        return nt
+    before = sum(R.witness_counts.values())
+    judge_once(forms, dg, R, case)
+    _rekey(R, before, "asked-again-after-another-graph/")
+    R.count("asked_again_after_another_graph")
     return nt
 
 
